@@ -222,13 +222,15 @@ def gen_history(rng, pools, tier):
     if rng.random() < 0.45:
         # contrast mode: the variants differ in exactly one of the keys the shared state is (or
         # should be) keyed by, the same strings recur under each variant, few languages
-        focus = rng.choice(["SKIP_TOKENS", "SKIP_TOKENS", "NORMALIZE", "DATE_ORDER", "PREFER_LOCALE_DATE_ORDER", "DEFAULT_LANGUAGES", "PARSERS", "CACHE_SIZE_LIMIT", "STRICT_PARSING", "PREFER_DATES_FROM"])
+        focus = rng.choice(["SKIP_TOKENS", "SKIP_TOKENS", "NORMALIZE", "DATE_ORDER", "PREFER_LOCALE_DATE_ORDER", "DEFAULT_LANGUAGES", "PARSERS", "CACHE_SIZE_LIMIT", "STRICT_PARSING", "PREFER_DATES_FROM", "RELATIVE_BASE", "RELATIVE_BASE", "TIMEZONE", "PREFER_DAY_OF_MONTH"])
         langs = langs[: rng.choice([1, 1, 2])]
         base = {} if rng.random() < 0.6 else {k: v for k, v in draw_settings(rng, langs).items() if k != focus}
         vals = {
             "SKIP_TOKENS": [["foo"], ["bar"], ["t"], ["foo", "bar"], []], "NORMALIZE": [True, False], "DATE_ORDER": ORDERS, "PREFER_LOCALE_DATE_ORDER": [True, False],
             "DEFAULT_LANGUAGES": [[l] for l in (langs + ["en", "fr"])[:3]], "PARSERS": PARSER_SETS, "CACHE_SIZE_LIMIT": CACHE_LIMITS, "STRICT_PARSING": [True, False],
             "PREFER_DATES_FROM": ["past", "future", "current_period"],
+            "RELATIVE_BASE": [{"__dt__": [rng.randrange(1990, 2035), rng.randrange(1, 13), rng.randrange(1, 29), rng.randrange(24), rng.randrange(60), 0, 0], "tz": None} for _ in range(3)],
+            "TIMEZONE": ["UTC", "Asia/Tokyo", "America/New_York", "local"], "PREFER_DAY_OF_MONTH": ["first", "last", "current"],
         }[focus]
         picks = rng.sample(vals, min(len(vals), rng.choice([2, 2, 3])))
         variants = [None if not base else dict(base)] + [dict(base, **{focus: copy.deepcopy(v)}) for v in picks]
@@ -247,6 +249,14 @@ def gen_history(rng, pools, tier):
     strings = [(L, draw_string(rng, pools, L)) for L in langs for _ in range(3)]
     if focus == "SKIP_TOKENS":
         strings = [(L, rng.choice(["foo ", "bar ", "foo bar "]) + s0 if not s0.startswith(("foo", "bar")) else s0) for L, s0 in strings]
+    elif focus in ("RELATIVE_BASE", "PREFER_DATES_FROM", "TIMEZONE"):
+        # strings whose value depends on the reference: relative phrases, partial dates, times
+        extra = []
+        for L in langs:
+            P = pools["langs"].get(L) or {}
+            extra += [(L, x) for x in (P.get("rel") or [])[:3] + (P.get("relre") or [])[:2]]
+            extra += [(L, "%02d:%02d" % (rng.randrange(24), rng.randrange(60)))]
+        strings = strings[: len(langs)] + extra
     elif focus in ("DATE_ORDER", "PREFER_LOCALE_DATE_ORDER"):
         strings = strings[: len(langs)] + [(L, "%02d/%02d/%d" % (rng.randrange(1, 13), rng.randrange(1, 13), rng.randrange(2000, 2030))) for L in langs for _ in range(2)]
     ops = []
@@ -270,6 +280,11 @@ def gen_history(rng, pools, tier):
             kw["settings"] = copy.deepcopy(var)
         if rng.random() < 0.12:
             kw["date_formats"] = [rng.choice(["%d %B %Y", "%d/%m/%Y", "%H:%M", "%B %Y", "%Y"])]
+        elif rng.random() < 0.06:
+            # several formats, not all matching: the caller's list must come back untouched
+            kw["date_formats"] = rng.choice([["%d/%m/%Y", "%m/%d/%Y"], ["%Y-%m-%d", "%d.%m.%Y", "%d/%m/%Y"], ["%H:%M:%S", "%H:%M"], ["%d %B %Y", "%B %Y", "%Y"]])
+            if rng.random() < 0.6:
+                s = rng.choice(["02/13/2020", "13/02/2020", "11.03.2015", "03/04/2020", "10:15", "March 2015", "2015"])
         if r < 0.45:
             op = {"op": "parse", "s": s, "kw": kw}
         elif r < 0.53:
@@ -281,7 +296,7 @@ def gen_history(rng, pools, tier):
             nslot += 1
             slots[nslot] = kw
             op = {"op": "new_parser", "slot": nslot, "kw": kw}
-        elif r < 0.70 and slots:
+        elif r < (0.80 if focus else 0.70) and slots:
             j = rng.choice(sorted(slots))
             op = {"op": rng.choice(["get_date_data", "get_date_data", "get_date_tuple"]), "slot": j, "ctor": slots[j], "s": s}
             if rng.random() < 0.1:
